@@ -1283,6 +1283,11 @@ func SelectExpr(query *Query, current Map, expr *sqlparser.SelectExprs, opts ...
 						delete(data, "<-")
 						return nil
 					})
+					// over dual the current row is the query's own scope, which also holds the
+					// lazy entries of its common table expressions: they are not columns
+					if _, ok := value.(CteEvaluation); ok {
+						continue
+					}
 					data[key] = value
 				}
 			}
@@ -1345,6 +1350,14 @@ func SelectExpr(query *Query, current Map, expr *sqlparser.SelectExprs, opts ...
 				// common table expressions in scope: they are not data
 				if scope, ok := valueRaw.(Map); ok {
 					valueRaw = WithoutCtes(scope)
+				}
+				// a common table expression named as a column (over dual): its rows
+				if cte, ok := valueRaw.(CteEvaluation); ok {
+					rows, err := cte()
+					if err != nil {
+						return nil, err
+					}
+					valueRaw = rows
 				}
 				data[name] = valueRaw
 			}
